@@ -16,19 +16,36 @@ import (
 // runBurst sends several requests of one connection back to back and checks the result after
 // quiescence. Immediate requests keep their order (one connection is FIFO end to end); pose and
 // component updates wait for the next frame and may be coalesced, so their relays are checked
-// by the C11 stream rules instead of by exact position.
+// by the C11 stream rules instead of by exact position. A burst may end with the connection
+// leaving (a switch to another session, or a close) while updates are still pending.
 func (r *runner) runBurst(steps []Step) {
 	c := r.client(steps[0].Conn)
 	if r.failed() {
 		return
 	}
-	mc := r.m.conn(steps[0].Conn)
+	ci := steps[0].Conn
+	mc := r.m.conn(ci)
 	if mc.Gone || c.Ended() || c.sentFIN {
 		r.res.Skipped += len(steps)
 		return
 	}
+	var trailing *Step
+	if last := &steps[len(steps)-1]; last.Op == "join" || last.Op == "close" {
+		trailing = last
+		steps = steps[:len(steps)-1]
+	}
 	r.markAll()
+	oldSession := mc.Session
+	oldPID := mc.PID
+	type sent struct {
+		key   string
+		ent   uint32
+		seq   float32
+		data  string
+		valid bool
+	}
 	var ps []*Pending
+	touched := map[string]bool{} // keys of deferred updates sent so far in this burst
 	for i := range steps {
 		st := &steps[i]
 		if !isRequestOp(st.Op) || st.Op == "join" {
@@ -38,22 +55,44 @@ func (r *runner) runBurst(steps []Step) {
 		if p.Req == nil {
 			continue
 		}
+		switch q := p.Req.(type) {
+		case *hagallpb.EntityUpdatePose:
+			if trailing != nil && survives(oldSession, oldPID, q.EntityId) {
+				continue // whether a pending update of something that survives the leave is applied first is open
+			}
+			touched[fmt.Sprintf("pose:%d", q.EntityId)] = true
+		case *hagallpb.EntityComponentUpdate:
+			if trailing != nil && survives(oldSession, oldPID, q.EntityId) {
+				continue
+			}
+			touched[fmt.Sprintf("comp:%d:%d", q.EntityComponentTypeId, q.EntityId)] = true
+		case *hagallpb.EntityComponentAddRequest:
+			if touched[fmt.Sprintf("comp:%d:%d", q.EntityComponentTypeId, q.EntityId)] {
+				continue // re-adding a component whose update is still pending: final value is open
+			}
+		}
 		ps = append(ps, p)
 		c.Send(p.Req)
 		r.res.Executed++
+	}
+	var pj *Pending
+	if trailing != nil {
+		r.res.Executed++
+		r.res.Triggers["burst_then_"+trailing.Op]++
+		if trailing.Op == "join" {
+			pj = r.m.Build(trailing, ci, c.NextReqID())
+			c.Send(pj.Req)
+		} else {
+			c.CloseFIN()
+		}
 	}
 	r.res.Triggers["burst"]++
 	r.quiesce()
 	got := c.NonClock(c.Since())
 	all := &Outcome{Kind: "burst", Others: map[int][]Exp{}}
 	deferred := false
-	type sent struct {
-		key   string
-		seq   float32
-		data  string
-		valid bool
-	}
 	var sentDeferred []sent
+	killed := map[string]bool{} // keys whose target was removed later in the same burst
 	for _, p := range ps {
 		out := p.Finish(r.m, got)
 		for _, v := range out.Viol {
@@ -64,25 +103,61 @@ func (r *runner) runBurst(steps []Step) {
 			all.Accepted = true
 			r.res.Triggers["accepted"]++
 		}
-
 		if isDeferredOp(p.Step.Op) {
 			deferred = true
 			switch q := p.Req.(type) {
 			case *hagallpb.EntityUpdatePose:
-				sentDeferred = append(sentDeferred, sent{key: fmt.Sprintf("pose:%d", q.EntityId), seq: q.GetPose().GetPx(), valid: out.Accepted})
+				sentDeferred = append(sentDeferred, sent{key: fmt.Sprintf("pose:%d", q.EntityId), ent: q.EntityId, seq: q.GetPose().GetPx(), valid: out.Accepted})
 			case *hagallpb.EntityComponentUpdate:
-				sentDeferred = append(sentDeferred, sent{key: fmt.Sprintf("comp:%d:%d", q.EntityComponentTypeId, q.EntityId), data: string(q.Data), valid: out.Accepted})
+				sentDeferred = append(sentDeferred, sent{key: fmt.Sprintf("comp:%d:%d", q.EntityComponentTypeId, q.EntityId), ent: q.EntityId, data: string(q.Data), valid: out.Accepted})
 			}
 			continue
 		}
+		if out.Accepted {
+			switch q := p.Req.(type) {
+			case *hagallpb.EntityDeleteRequest:
+				for _, sd := range sentDeferred {
+					if sd.ent == q.EntityId {
+						killed[sd.key] = true
+					}
+				}
+			case *hagallpb.EntityComponentDeleteRequest:
+				killed[fmt.Sprintf("comp:%d:%d", q.EntityComponentTypeId, q.EntityId)] = true
+			}
+		}
 		all.Req = append(all.Req, out.Req...)
-		for ci, e := range out.Others {
-			all.Others[ci] = append(all.Others[ci], e...)
+		for oi, e := range out.Others {
+			all.Others[oi] = append(all.Others[oi], e...)
 		}
 		all.Props = append(all.Props, out.Props...)
 		all.Kind = "burst:" + out.Kind
 	}
-	if c.Ended() {
+	if trailing != nil {
+		var out *Outcome
+		if pj != nil {
+			out = pj.Finish(r.m, got)
+			if out.Accepted {
+				r.afterJoinTags(trailing, c)
+			}
+		} else {
+			out = r.m.Depart(ci)
+			r.res.Triggers["departure"]++
+		}
+		for _, v := range out.Viol {
+			r.violate(v)
+		}
+		all.Req = append(all.Req, out.Req...)
+		for oi, e := range out.Others {
+			all.Others[oi] = append(all.Others[oi], e...)
+		}
+		all.Props = append(all.Props, out.Props...)
+		all.Kind = "burst:" + out.Kind
+		all.Accepted = all.Accepted || out.Accepted
+		for _, sd := range sentDeferred {
+			killed[sd.key] = true // the owner left: nothing is owed any more
+		}
+	}
+	if c.Ended() && (trailing == nil || trailing.Op != "close") {
 		r.v("C08", "active-disconnected", "burst: the server ended connection %s (%s)", c.Label, c.DisconnectErr)
 		return
 	}
@@ -100,9 +175,9 @@ func (r *runner) runBurst(steps []Step) {
 		return out
 	}
 	r.lastOut = all
-	for _, ci := range r.sortedClients() {
-		o := r.clients[ci]
-		if o.reset || (o != c && o.Ended()) {
+	for _, oi := range r.sortedClients() {
+		o := r.clients[oi]
+		if o.reset || (o != c && o.Ended()) || (o == c && trailing != nil && trailing.Op == "close") {
 			continue
 		}
 		actual := strip(o.NonClock(o.Since()))
@@ -110,7 +185,7 @@ func (r *runner) runBurst(steps []Step) {
 		if o == c {
 			exp = all.Req
 		} else {
-			exp = all.Others[ci]
+			exp = all.Others[oi]
 		}
 		if mm := matchStream(actual, filterExp(exp, r.dis)); mm != nil {
 			if o == c {
@@ -121,18 +196,16 @@ func (r *runner) runBurst(steps []Step) {
 		}
 	}
 	// deferred part: per observer and per key the relays are an order preserving selection of
-	// what was sent, ending with the last one sent
+	// what was sent, ending with the last one unless the target was removed or the owner left
 	if deferred && len(r.dis) == 0 {
 		r.res.Triggers["deferred_burst"]++
-		for _, ci := range r.sortedClients() {
-			o := r.clients[ci]
+		for _, oi := range r.sortedClients() {
+			o := r.clients[oi]
 			if o == c || o.Ended() {
 				continue
 			}
-			oc := r.m.conn(ci)
-			if oc.Session == nil || oc.Session != mc.Session {
-				continue
-			}
+			oc := r.m.conn(oi)
+			inOld := oldSession != nil && oc.Session != nil && oc.Session.UUID == oldSession.UUID
 			byKey := map[string][]sent{}
 			for _, s := range sentDeferred {
 				if s.valid {
@@ -140,15 +213,39 @@ func (r *runner) runBurst(steps []Step) {
 				}
 			}
 			gotKey := map[string][]sent{}
-			for _, m := range o.Since() {
+			removedAt := map[uint32]int{} // entity -> index of its delete relay in the observer's window
+			leftAt := -1
+			window := o.Since()
+			for idx, m := range window {
 				switch q := m.Msg.(type) {
 				case *hagallpb.EntityUpdatePoseBroadcast:
 					k := fmt.Sprintf("pose:%d", q.EntityId)
-					gotKey[k] = append(gotKey[k], sent{key: k, seq: q.GetPose().GetPx()})
+					gotKey[k] = append(gotKey[k], sent{key: k, ent: q.EntityId, seq: q.GetPose().GetPx()})
+					if at, ok := removedAt[q.EntityId]; ok && inOld {
+						r.v("C11", "pose-after-delete", "%s was relayed a pose of entity %d (message %d of the window) after the relay of its deletion (message %d)", o.Label, q.EntityId, idx, at)
+					}
+					if leftAt >= 0 && inOld {
+						r.v("C11", "pose-after-delete", "%s was relayed a pose of entity %d after the relay of its owner's departure", o.Label, q.EntityId)
+					}
 				case *hagallpb.EntityComponentUpdateBroadcast:
 					k := fmt.Sprintf("comp:%d:%d", q.GetEntityComponent().GetEntityComponentTypeId(), q.GetEntityComponent().GetEntityId())
 					gotKey[k] = append(gotKey[k], sent{key: k, data: string(q.GetEntityComponent().GetData())})
+				case *hagallpb.EntityDeleteBroadcast:
+					removedAt[q.EntityId] = idx
+				case *hagallpb.ParticipantLeaveBroadcast:
+					if q.ParticipantId == oldPID {
+						leftAt = idx
+					}
 				}
+			}
+			if !inOld {
+				// a member of another session (for instance the one the sender switched to) must
+				// see nothing of these updates
+				for k, g := range gotKey {
+					r.v("C11", "invalid-update-had-effect", "%s is not in the sender's session and was relayed %d update(s) of %s", o.Label, len(g), k)
+					r.v("C03", "foreign-effect", "%s is not in the sender's session and was relayed %d update(s) of %s", o.Label, len(g), k)
+				}
+				continue
 			}
 			for k, g := range gotKey {
 				if len(byKey[k]) == 0 {
@@ -162,7 +259,7 @@ func (r *runner) runBurst(steps []Step) {
 				if isComp {
 					var typ uint32
 					fmt.Sscanf(k, "comp:%d:", &typ)
-					if !mc.Session.Subs[typ][oc.PID] {
+					if !oldSession.Subs[typ][oc.PID] {
 						if len(g) > 0 {
 							r.v("C13", "notify-unsubscribed", "%s is not subscribed but was relayed updates of %s", o.Label, k)
 						}
@@ -181,6 +278,10 @@ func (r *runner) runBurst(steps []Step) {
 					}
 					j++
 				}
+				if killed[k] {
+					r.res.Triggers["deferred_target_removed"]++
+					continue
+				}
 				if len(g) == 0 || g[len(g)-1].seq != sl[len(sl)-1].seq || g[len(g)-1].data != sl[len(sl)-1].data {
 					r.v("C11", "pose-last-not-relayed", "%s: the last update of %s sent (%v) was not the last relayed (%v)", o.Label, k, sl[len(sl)-1], g)
 					if isComp {
@@ -195,7 +296,19 @@ func (r *runner) runBurst(steps []Step) {
 			}
 		}
 	}
+	if trailing != nil && trailing.Op == "close" {
+		r.checkEnded(c, "close with updates pending")
+	}
 	r.checkState(all)
+}
+
+// survives: the entity (and what hangs on it) is still there after participant pid has left.
+func survives(s *MSession, pid, ent uint32) bool {
+	if s == nil {
+		return false
+	}
+	e := s.Entities[ent]
+	return e != nil && (e.Owner != pid || e.Persist)
 }
 
 // ---------------------------------------------------------------------------------------------
